@@ -108,7 +108,7 @@ fn base_weights(prop: &str) -> Vec<(Kind, u32)> {
             (AddNext, 10), (NextOnly, 6), (Clone, 3), (CloneLinked, 1), (DropInst, 1), (Merge, 2), (Script, 3),
             (Save, 1), (Load, 1), (Crash, 1), (Cycle, 2), (RejectedMerge, 1),
         ]),
-        "C06" => w.extend([(Cycle, 30), (Save, 1), (Load, 1), (Crash, 1), (Merge, 1), (Slice, 2)]),
+        "C06" => w.extend([(Cycle, 30), (Save, 1), (Load, 1), (Crash, 1), (Merge, 1), (Slice, 2), (Clone, 2), (NewInst, 1), (DropInst, 1)]),
         "C07" => w.extend([
             (NextOnly, 1), (Clone, 2), (DropInst, 2), (Save, 3), (Load, 3), (Crash, 1), (Slice, 2), (Merge, 1),
             (Script, 1), (Oob, 5), (Damage, 3), (NewInst, 1), (Cycle, 2), (DrainClone, 1), (JoinMerge, 1),
